@@ -21,6 +21,16 @@ NEEDS = {
  'C07_4': "indexing M[blade] with a key blade of negative weight (-e12, e2*e1, ~e12)",
  'C08_3': "conformalisation of a base algebra with at least one negative basis vector",
  'C08_4': "a conformal point with weight 0 < |s| <= 1e-6 passed to homo / down",
+ 'C10_3': "a jitted power with an exponent that has three or more 1-bits (7, 11, 13, 14, 15, ...)",
+ 'C10_4': "two distinct layouts alive in one process with the same numbers of +, -, 0 entries but another arrangement / blade order / names, used in jitted code",
+ 'C11_3': "an integer square matrix of dimension >= 4 whose floating-point determinant lands just short of the integer",
+ 'C11_4': "adjoint of a map between algebras with negative or zero signature entries, on blades of negative or zero square",
+ 'C17_3': "astype(<same dtype>, copy=False), then a documented mutator on the result",
+ 'C17_4': "one list of blade pairs reused for several BladeMap objects, and a multivector with a scalar part",
+ 'C19_3': "a custom blade order that does not store the scalar first, and a multivector with a non-zero scalar part",
+ 'C19_4': "a malformed string whose offending token is on the third line or later",
+ 'C20_3': "load_ga_file / from_value_array on one layout, then on another layout of the same signature and a different blade order",
+ 'C20_4': "transpose=True with a coefficient dtype other than float64 (int64 above 2**53, int32, float32)",
  'C15_1': "a DualFlat in conformalised Cl(4) (pseudoscalar squares to +1)",
  'C15_2': "Tangent(E, p) with grade(E) >= 1 and a location with a component inside the direction",
  'C16_1': "mixed signature and a non-blade argument whose reverse-norm nearly cancels with coefficients above ~3",
